@@ -1,29 +1,16 @@
-"""Per-property configuration of ./check (which theorem modules are the proof obligations,
-how many correspondence cases per tier, trusted base, assumptions)."""
+"""Per-property configuration of ./check: one JSON file per claimed property in tools/props/.
+Fields: prop_modules (Lean theorem modules = proof obligations), required_theorems,
+n_quick / n_thorough (correspondence cases), timeout, trusted_base, assumptions,
+manifest {text, design_ref, note, technique}."""
+import glob
+import json
+import os
 
 KERNEL = "Lean 4.33.0 kernel; axioms per theorem audited by #print axioms ⊆ {propext, Classical.choice, Quot.sound}; no sorry/admit/axiom/native_decide/bv_decide"
 TIE = "correspondence harness rvharness (Rust, in-process calls into /repo's current tree) + line protocol + compiled Lean driver rvdriver (Lean compiler/C toolchain trusted to evaluate model definitions as the kernel would)"
 
-PROPS = {
-    "C07": {
-        "prop_modules": ["RedisVerif.Props.C07"],
-        "required_theorems": [
-            "RedisVerif.C07.rv_merge_idem", "RedisVerif.C07.rv_merge_comm",
-            "RedisVerif.C07.rv_merge_assoc_partial", "RedisVerif.C07.rv_merge_wf",
-            "RedisVerif.C07.assoc_cross_kind_counterexample", "RedisVerif.C07.C07_assoc_false",
-            "RedisVerif.C07.obs_comm", "RedisVerif.C07.obs_idem", "RedisVerif.C07.obs_assoc_partial",
-        ],
-        "n_quick": 3000,
-        "n_thorough": 300000,
-        "trusted_base": [
-            KERNEL, TIE,
-            "model M1 (lean/RedisVerif/Model/Crdt.lean) is hand-written; HashMap/HashSet are modelled as canonical sorted Nat-keyed lists with keys injectively encoded by the driver",
-            "serde (serde_json) is used by the harness to build and read back real ReplicatedValues, including private fields",
-        ],
-        "assumptions": [
-            "commutativity is claimed for tie-consistent pairs only (decidable predicate TieConsistent; discharged for reachable values by the C08 invariant)",
-            "associativity is proved for same-kind triples; cross-kind triples are a known finding (C07:assoc:cross-kind:crdt)",
-            "u64 overflow of counters / Lamport times is not modelled (Nat)",
-        ],
-    },
-}
+PROPS = {}
+for _f in sorted(glob.glob(os.path.join(os.path.dirname(os.path.abspath(__file__)), "props", "C*.json"))):
+    _c = json.load(open(_f))
+    _c["trusted_base"] = [KERNEL, TIE] + _c.get("trusted_base", [])
+    PROPS[os.path.basename(_f)[:-5]] = _c
